@@ -36,4 +36,5 @@ run utils/bitlist.go 's/for c > 0 {/for c > 7 {/' 'utils.(*BitList).IterateBytes
 run aztec/encoder.go 's/modeMessage.AddBits(layers-1, 2)/modeMessage.AddBits(layers, 2)/' aztec.generateModeMessage
 run utils/galoisfield.go 's/} else if a == 0 {/} else if a == 1 {/' 'utils.(*GaloisField).Divide'
 run qr/encoder.go 's/return encodeUnicode$/return nil/' 'qr.(Encoding).getEncoder'
+run code93/encoder.go 's/if info.value == total {/if info.value == total && r < 0x80 {/' code93.getChecksum
 exit $fail
